@@ -98,6 +98,15 @@ func (c *Ctx) readerLayout(f *ssa.Function, typ string) (layout, map[string]stri
 		if sl, ok := v.(*ssa.Slice); ok && sl.Low == nil {
 			return sl.X == ssa.Value(data)
 		}
+		// data, err = step(data): a helper that hands back a prefix of the bytes it was given (or nil)
+		if ex, ok := v.(*ssa.Extract); ok {
+			if call, ok := ex.Tuple.(*ssa.Call); ok && prefixOfArg(call, ex.Index) == ssa.Value(data) {
+				return true
+			}
+		}
+		if call, ok := v.(*ssa.Call); ok && prefixOfArg(call, 0) == ssa.Value(data) {
+			return true
+		}
 		return false
 	}
 	rd := &lanes.Reader{IsBase: isBase, MaxDepth: 3, Callee: c.laneCallee}
@@ -813,4 +822,37 @@ func (c *Ctx) padOfLen(rv ssa.Value, padF *ssa.Function) (bool, ssa.Value, strin
 		why = fmt.Sprintf("Padding() = %s as a function of the length, which is not round-up-to-4 of it minus it", cv)
 	}
 	return false, nil, why
+}
+
+// prefixOfArg: result idx of the call is, on every return, nil or a prefix p[:x] (or p itself) of one and the same
+// byte-slice parameter p of the callee; returns the argument passed for p (nil otherwise).
+func prefixOfArg(call *ssa.Call, idx int) ssa.Value {
+	g := flow.StaticCallee(call)
+	if g == nil || g.Blocks == nil || idx >= g.Signature.Results().Len() || !isByteSlice(g.Signature.Results().At(idx).Type()) {
+		return nil
+	}
+	var p *ssa.Parameter
+	n := 0
+	for _, rv := range flow.ReturnValues(g, idx) {
+		if flow.IsNilConst(rv) {
+			continue
+		}
+		v := rv
+		if sl, ok := v.(*ssa.Slice); ok && sl.Low == nil {
+			v = sl.X
+		}
+		q, ok := v.(*ssa.Parameter)
+		if !ok || q.Parent() != g || (p != nil && p != q) {
+			return nil
+		}
+		p = q
+		n++
+	}
+	if p == nil || n == 0 {
+		return nil
+	}
+	if i := paramIndex(g, p); i < len(call.Call.Args) {
+		return call.Call.Args[i]
+	}
+	return nil
 }
